@@ -32,7 +32,10 @@ CLAIM = dict(
          "uuid values are carried as their 32 hex digits; maps built through the factories are compared with the model's factories applied to the "
          "inner rules, builds with extras with adapter_build_q; RuleTemplate is modelled for braced placeholders and $$ in the rule text (the "
          "unbraced form, templated defaults / endpoints / subdomains are outside), sort_key for itemgetter(0) and the natural order of string "
-         "items, EndpointPrefix as an injective renaming of endpoint numbers; that a built path has no '?' is a hypothesis of the split clause "
+         "items, EndpointPrefix as an injective renaming of endpoint numbers; rules with several variables in one segment (10..13 variables, up to 12 in one segment) are outside the model's grammar - one variable per "
+         "segment, so the matcher's ordering of a part's regex groups by name is the identity in the model - and are checked on the implementation "
+         "only (build -> match returns the built values; this found the name-ordering defect fixed in the repository); "
+         "that a built path has no '?' is a hypothesis of the split clause "
          "of C04_build_match_extras (AnyConverter.to_url does not quote its items); host_matching builds are modelled "
          "and compared (MapAdapter._partial_build's preference for the bound host), the map-level theorems cover host parts through dom_built.",
     design="6/C04")
@@ -474,7 +477,7 @@ def run(chk: Check) -> None:
             # model: the same composition
             lines.append(f"b2m {ms.cfg()} {menc} {ad.enc()} {r.endpoint} {enc_vals(given)} {cps('GET')}")
             expect.append(mobs)
-            if r.methods is not None and "GET" not in r.methods:
+            if r.methods is not None and "GET" not in {x.upper() for x in r.methods}:
                 continue
             if not mobs.startswith("M "):
                 key = "build-then-match"
@@ -547,6 +550,8 @@ def run(chk: Check) -> None:
                     chk.count("build:extras")
                     chk.count(f"build:extras:sort{srt}")
 
+    wide_rules_campaign(chk, 160 if quick else 2400)
+
     # ---------------- model side
     exe = chk.build_modelrun("C04")
     if exe:
@@ -564,6 +569,63 @@ def run(chk: Check) -> None:
                                    f"case {ln[:200]!r}: impl {show(want)[:200]!r} model {show(g)[:200]!r}", case={"line": ln, "impl": want, "model": got})
             chk.count("model:compared", len(lines))
             chk.count("model:mismatches", mism)
+
+
+def wide_rules_campaign(chk: Check, n: int) -> None:
+    """rules with 10..13 variables, several per segment (up to 12 in one): outside the grammar of the model (one variable
+    per segment, so the matcher's sorting of a part's regex groups by name is the identity there), checked on the
+    implementation: build -> deliver -> match returns exactly the built values, and rebuilding gives the same URL.
+    Rule._parse_rule numbers the groups of one part __werkzeug_0, __werkzeug_1, ...; with more than ten in one part the
+    names have to be ordered as numbers."""
+    from werkzeug.routing import Map, Rule
+    rng = chk.rng
+    for _ in range(n):
+        nvar = rng.randint(10, 13)
+        names = [f"{rng.choice('abcdefgh')}{i}" for i in range(nvar)]
+        rng.shuffle(names)
+        # cut the variables into segments: sometimes all in one, sometimes nine singles and a pair, sometimes random
+        c = rng.random()
+        if c < 0.3:
+            cuts = [nvar]
+        elif c < 0.6:
+            cuts = [1] * 9 + [nvar - 9]
+        else:
+            cuts, left = [], nvar
+            while left:
+                k = rng.randint(1, min(left, 12))
+                cuts.append(k)
+                left -= k
+        segs, vals, it = [], {}, iter(names)
+        for k in cuts:
+            pieces = []
+            for _j in range(k):
+                nm = next(it)
+                kind = rng.choice(["int", "int", "int(fixed_digits=3)", "string(length=2)"])
+                pieces.append(f"<{kind}:{nm}>")
+                vals[nm] = rng.choice(["ab", "xy", "zz"]) if kind.startswith("string") else \
+                    (rng.randint(0, 999) if "fixed" in kind else rng.choice([0, 7, 12, 2024, 31, 100, 5]))
+            segs.append(rng.choice(["-", ".", "_", "~"]).join(pieces))
+        rule = "/w/" + "/".join(segs)
+        info = {"map": {"rules": [dict(rule=rule, endpoint="wide", methods=None, strict_slashes=None, merge_slashes=None)], "strict_slashes": True,
+                        "merge_slashes": True, "redirect_defaults": True, "host_matching": False},
+                "adapter": {"server": "example.com"}, "path": None, "method": "GET", "values": {k: repr(v) for k, v in vals.items()}}
+        try:
+            m = Map([Rule(rule, endpoint="wide"), Rule("/w/other", endpoint="other")])
+            a = m.bind("example.com")
+            url = a.build("wide", dict(vals))
+            info["path"] = unquote(url)
+            got = a.match(unquote(url))
+        except Exception as e:  # noqa: BLE001
+            chk.fail("wide-rule", f"rule {rule!r} with {vals!r}: {type(e).__name__}: {e}", info)
+            continue
+        chk.count(f"wide:vars{nvar}:maxseg{max(cuts)}" if max(cuts) > 10 else "wide:vars<=10-per-segment")
+        chk.case(("wide", rule, repr(vals)), nontrivial=True)
+        if got != ("wide", vals):
+            wrong = {k: (vals[k], got[1].get(k)) for k in vals if got[0] == "wide" and got[1].get(k) != vals[k]}
+            chk.fail("build-then-match-wide", f"rule {rule!r}: build -> {url!r}; match returns {got[0]} with (built, matched) differing at {wrong!r}", info)
+            continue
+        if a.build(got[0], dict(got[1])) != url:
+            chk.fail("match-then-build-wide", f"rule {rule!r}: rebuilt URL differs from {url!r}", info)
 
 
 def main(chk: Check) -> None:
